@@ -5,20 +5,30 @@ import vf
 HARNESS = "b_codecB_merkle"
 
 
-def cfg_text(spec, max_n, max_k, tear, mut_level, invariants, properties, edges=True):
+def cfg_text(spec, max_n, max_k, tear, mut_level, invariants, properties, edges=True, big=False):
     lines = ["SPECIFICATION %s" % spec, "CONSTANTS",
              "  MaxN = %d" % max_n, "  MaxK = %d" % max_k,
              "  EqRootShortcut = TRUE", "  ZeroOldShortcut = TRUE",
              "  Tear = %s" % ("TRUE" if tear else "FALSE"), "  MutLevel = %d" % mut_level,
+             "  BigInit <- GenBig", "  Pairs <- GenPairs",
              "VIEW view", "INVARIANTS " + " ".join(invariants), "PROPERTIES " + " ".join(properties)]
     if edges:
-        lines += ["CONSTRAINT InitOutA", "ACTION_CONSTRAINT EdgeA"]
+        lines += ["CONSTRAINT InitOutBig", "ACTION_CONSTRAINT EdgeBig"] if big else ["CONSTRAINT InitOutA", "ACTION_CONSTRAINT EdgeA"]
     lines.append("CHECK_DEADLOCK FALSE")
     return "\n".join(lines) + "\n"
 
 
-def model_check(ctx, cfg_name, cfg, required, workers=1, timeout=1500, expect_violation=None):
-    r = ctx.tlc("Merkle_MC", cfg=cfg_name, workers=workers, timeout=timeout, files={cfg_name: cfg})
+def gen_module(sizes, pairs):
+    return ("----------------------------- MODULE Merkle_Gen -----------------------------\n"
+            "GenBig == {%s}\nGenPairs == {%s}\n"
+            "=============================================================================\n"
+            % (", ".join(str(x) for x in sorted(sizes)), ", ".join("<<%d, %d>>" % p for p in sorted(pairs))))
+
+
+def model_check(ctx, cfg_name, cfg, required, workers=1, timeout=1500, expect_violation=None, extra_files=None):
+    files = {cfg_name: cfg}
+    files.update(extra_files or {})
+    r = ctx.tlc("Merkle_MC", cfg=cfg_name, workers=workers, timeout=timeout, files=files)
     if expect_violation:
         return r
     if r.status != "ok":
@@ -43,7 +53,7 @@ def replay(ctx, binary, mode, paths, tag):
     (path index, step index, act, real)."""
     fin = os.path.join(ctx.scratch, "replay-%s.in.json" % tag)
     fout = os.path.join(ctx.scratch, "replay-%s.out.ndjson" % tag)
-    vf.write_json(fin, {"mode": mode, "paths": [{"steps": p["steps"]} for p in paths]})
+    vf.write_json(fin, {"mode": mode, "paths": [{"init": p.get("init"), "steps": p["steps"]} for p in paths]})
     rc, out = ctx.run_bin(binary, "TestVerifMerkleReplay", env={"VERIF_IN": fin, "VERIF_OUT": fout}, timeout=1800)
     if rc != 0:
         ctx.infra("merkle replay harness failed rc=%s" % rc)
@@ -58,7 +68,7 @@ def replay(ctx, binary, mode, paths, tag):
     for r in recs:
         if r.get("done"):
             continue
-        act = paths[r["path"]]["steps"][r["step"]]["act"]
+        act = paths[r["path"]]["steps"][r["step"]]["act"] if r["step"] >= 0 else {"name": "InitBuild"}
         if r.get("what"):
             mism.append((r["path"], r["step"], act, r))
         else:
@@ -72,4 +82,6 @@ STATEFUL = ("Append", "TornAppend", "Reload", "Grow")
 def minimal(paths, pi, si):
     """smallest replayable path: the state-changing steps before step si, then step si"""
     st = paths[pi]["steps"]
-    return {"steps": [s for s in st[:si] if s["act"]["name"] in STATEFUL] + [st[si]]}
+    if si < 0:
+        return {"init": paths[pi].get("init"), "steps": []}
+    return {"init": paths[pi].get("init"), "steps": [s for s in st[:si] if s["act"]["name"] in STATEFUL] + [st[si]]}
